@@ -37,6 +37,9 @@ Correspondence with the Rust code:
 * `removeNotInList`     — `Cache::remove_not_in_list`: a cache entry stays iff the repository listing has the same id with the
                           same size.  (Code: one loop over the listing, one over the rest of a `HashMap`; the removals act on
                           distinct paths and, after the fix, cannot fail with `NotFound`, so the order is immaterial.)
+* `checkCleanup`        — what `Repository::check` / `check_repository` (`commands/check.rs`) do to the cache: listings of snapshot
+                          and index files, then `remove_not_in_list(Pack, tree packs of the index)` — the latter whether or not
+                          `trust_cache` is set; `checkCacheFilesPack` — the comparison `check_cache_files(Pack)` (without `trust_cache`).
 * `readFull`, `readPartial`, `writeBytes`, `remove`, `listWithSize` — the `ReadBackend`/`WriteBackend` impls of
                           `CachedBackend` over an exact-map backend `be : SpecMap` (see C20); a listing is passed in as the
                           backend's answer.
@@ -265,6 +268,44 @@ def remove (s : St) (t : FileType) (id : Name) (cacheable : Bool) : St :=
 /-- `list` is the backend's answer, returned unchanged; the cache is cleaned for cacheable types -/
 def listWithSize (L : Nat) (s : St) (t : FileType) (list : List (Name × Nat)) : St :=
   { s with cache := if isCacheable t then removeNotInList L s.dirs s.cache t list else s.cache }
+
+/-! ### what `check` does to the cache (`commands/check.rs` `check_repository`, `repository.rs` `Repository::check`) -/
+
+/-- The cache-related part of `Repository::check`, in program order.  `trustCache` = `CheckOptions::trust_cache`; `snaps`, `idx`: the
+backend's listings of the snapshot / index files; `treePacks` = `index_collector.tree_packs()`: id and size — as the INDEX records them —
+of every tree pack of `index.packs` (packs marked for deletion are not among them).
+* `Repository::check`: `get_all_snapshots` lists the snapshots through the cached backend (clean-up) — both settings;
+* `if !opts.trust_cache && let Some(cache)`: `be.list_with_size(Snapshot)`, `be.list_with_size(Index)` through the cached backend; the
+  comparison `check_cache_files` after each only reads;
+* `check_packs`: `be.stream_all::<IndexFile>` lists the index files through the cached backend — both settings;
+* `if let Some(cache)`: `cache.remove_not_in_list(FileType::Pack, tree_packs)` — guarded by the presence of a cache ONLY, **not** by
+  `trust_cache` (`trust_cache` guards only the comparison `check_cache_files(Pack)` that follows, which only reads).
+The reads in between (snapshot and index files) only refill the cache with the repository's bytes; `check_trees` / `read_data`
+afterwards read through `readPartial` (tree blobs: `cacheable = true`) and `readFull`. -/
+def checkListed (L : Nat) (s : St) (trustCache : Bool) (snaps idx : List (Name × Nat)) : St :=
+  let s0 := listWithSize L s .snapshot snaps
+  let s1 := if trustCache then s0 else listWithSize L (listWithSize L s0 .snapshot snaps) .index idx
+  listWithSize L s1 .index idx
+
+def checkCleanup (L : Nat) (s : St) (trustCache : Bool) (snaps idx treePacks : List (Name × Nat)) : St :=
+  { be := s.be, dirs := s.dirs,
+    cache := removeNotInList L s.dirs (checkListed L s trustCache snaps idx).cache .pack treePacks }
+
+/-- a finding of `check_cache_files` -/
+inductive CacheFinding where
+  | errorReadingFile (id : Name)
+  | cacheMismatch (id : Name)
+  deriving DecidableEq, Repr
+
+/-- `check_cache_files(_, cache, be, FileType::Pack, ..)` (only without `trust_cache`): every entry of the cache listing is read from the
+cache and — packs are not `is_cacheable`, so `be.read_full` bypasses the cache — from the repository; a file the repository lacks:
+`ErrorReadingFile`, other bytes: `CacheMismatch`. -/
+def checkCacheFilesPack (L : Nat) (s : St) : List CacheFinding :=
+  (cList L s.dirs s.cache .pack).filterMap (fun e =>
+    match s.be (.pack, e.1), cHit s.dirs s.cache .pack e.1 with
+    | none, _ => some (.errorReadingFile e.1)
+    | some b, some d => if d = b then none else some (.cacheMismatch e.1)
+    | some _, none => none)
 
 end Rustic.Cache
 
